@@ -133,6 +133,26 @@ Proof.
   eexists. split; [cbn; apply aget_aset_same|]. reflexivity.
 Qed.
 
+(* the peer an extend selects is one peer: the key it names and the address it carries (when it carries one)
+   are the key and the address of the same peer - the required exit or the exit chosen by random.choice *)
+Lemma sext_one_peer n cid cands tries o fa k i t X addr :
+  In (Send fa (MExtend k i t X addr)) (acts (send_extend n cid cands tries o)) ->
+  addr = 0 \/
+  exists p, t = p_key p /\ addr = p_addr p
+    /\ (o_fallback o = Some p \/ exists c, aget cid (n_circ n) = Some c /\ c_reqexit c = Some p).
+Proof.
+  unfold send_extend. destruct (aget cid (n_circ n)) as [c|] eqn:G; [|intros H; cbn in H; contradiction].
+  destruct (if c_goal c - 1 =? zlen (c_hops c) then c_reqexit c else None) as [re|] eqn:RE.
+  - intros [K|[]]. inversion K; subst. right. exists re. split; [reflexivity|]. split; [reflexivity|].
+    right. exists c. split; [reflexivity|]. destruct (c_goal c - 1 =? zlen (c_hops c)); [exact RE|discriminate].
+  - match goal with |- context [filter_cands ?ex cands] => destruct (filter_cands ex cands) as [f|e] end;
+      [|intros H; cbn in H; contradiction].
+    cbn [bind]. destruct f as [|t0 tl].
+    + destruct (o_fallback o) as [p|] eqn:F; [|intros H; cbn in H; contradiction].
+      intros [K|[]]. inversion K; subst. right. exists p. auto.
+    + intros [K|[]]. inversion K; subst. left. reflexivity.
+Qed.
+
 End Base.
 
 Arguments hops_of {C}.
@@ -145,3 +165,4 @@ Arguments sic_same {C}.
 Arguments sext_same {C}.
 Arguments sext_sends {C}.
 Arguments sic_sends {C}.
+Arguments sext_one_peer {C}.
